@@ -254,7 +254,7 @@ func parseProtocolVersion(s string) (version primitive.ProtocolVersion, ok bool)
 	} else if lowered == "65" || lowered == "dsev1" {
 		version = primitive.ProtocolVersionDse1
 	} else if lowered == "66" || lowered == "dsev2" {
-		version = primitive.ProtocolVersionDse1
+		version = primitive.ProtocolVersionDse2
 	} else {
 		ok = false
 	}
